@@ -88,8 +88,19 @@ pub fn dump_items<'tcx>(cx: &mut Cx<'tcx>) -> J {
                 };
                 let span = tcx.def_span(def);
                 let from_exp = span.from_expansion();
+                // trait bounds on the implementing type itself (`impl<I: Bound> Trait for I`): which types a blanket impl covers
+                let mut self_bounds: Vec<J> = Vec::new();
+                for (clause, _) in tcx.predicates_of(def).predicates.iter() {
+                    if let Some(tp) = clause.as_trait_clause() {
+                        let tp = tp.skip_binder();
+                        if tp.self_ty() == self_ty {
+                            self_bounds.push(J::s(cx.path_of(tp.def_id())));
+                        }
+                    }
+                }
                 impls.push(obj! {
                     "path": J::s(cx.path_of(def)),
+                    "self_bounds": J::Arr(self_bounds),
                     "trait": trait_path,
                     "trait_ref": trait_ref,
                     "self_ty": J::s(cx.ty_str(self_ty)),
@@ -131,8 +142,11 @@ pub fn dump_items<'tcx>(cx: &mut Cx<'tcx>) -> J {
             DefKind::Fn | DefKind::AssocFn => {
                 let sig = tcx.fn_sig(def).instantiate_identity().skip_norm_wip();
                 let sig = sig.skip_binder();
+                let gens = tcx.generics_of(def);
+                let gen_names: Vec<J> = (0..gens.count()).map(|i| J::s(gens.param_at(i, tcx).name.to_string())).collect();
                 fns.push(obj! {
                     "path": J::s(cx.path_of(def)),
+                    "generics": J::Arr(gen_names),
                     "vis": J::s(format!("{:?}", tcx.visibility(def))),
                     "inputs": J::Arr(sig.inputs().iter().map(|t| J::s(cx.ty_str(*t))).collect()),
                     "output": J::s(cx.ty_str(sig.output())),
